@@ -88,33 +88,91 @@ def defaults(run, model, rule="C15.defaults"):
         run.check(txt == "__debug__", rule, fi.qual, "default of `enabled` is __debug__", "default of `enabled` is `%s` (must be __debug__: contracts are off under -O and on otherwise)" % txt, fi.loc(), None, "enabled=%s" % txt)
 
 
-def _eval_env(e, debug, var):
+class _Return(Exception):
+    def __init__(self, value):
+        self.value = value
+
+
+def _exec_block(stmts, debug, var, scope, mod, depth=0):
+    """Straight-line helper code of the SLOW computation: assignments to names, ``if`` / ``else``, ``return``."""
+    for st in stmts:
+        if isinstance(st, ast.Expr) and isinstance(st.value, ast.Constant):
+            continue
+        if isinstance(st, ast.Pass):
+            continue
+        if isinstance(st, (ast.Assign, ast.AnnAssign)) and getattr(st, "value", None) is not None:
+            tgs = st.targets if isinstance(st, ast.Assign) else [st.target]
+            if len(tgs) != 1 or not isinstance(tgs[0], ast.Name):
+                raise AnalysisError("SLOW helper: unsupported assignment `%s`" % src_of(st))
+            scope[tgs[0].id] = _eval_env(st.value, debug, var, scope, mod, depth)
+        elif isinstance(st, ast.If):
+            _exec_block(st.body if _eval_env(st.test, debug, var, scope, mod, depth) else st.orelse, debug, var, scope, mod, depth)
+        elif isinstance(st, ast.Return):
+            raise _Return(None if st.value is None else _eval_env(st.value, debug, var, scope, mod, depth))
+        else:
+            raise AnalysisError("SLOW helper: unsupported statement `%s`" % first_line(st))
+
+
+def _eval_env(e, debug, var, scope=None, mod=None, depth=0):
     """Concrete evaluation of the SLOW expression for one abstract environment; raises AnalysisError if unknown.
 
-    ``var`` is 'unset', 'empty' or ('value', <string>) for a particular non-empty value.
+    ``var`` is 'unset', 'empty' or ('value', <string>) for a particular non-empty value.  ``scope`` holds the locals
+    of a helper function being evaluated, ``mod`` the module whose literal constants and simple helper functions
+    (parameters, assignments, if / return -- nothing else) may be used.
     """
+    def ev(x):  # the recursive calls carry the scope along
+        return _eval_env(x, debug, var, scope, mod, depth)
+
     val = None if var == "unset" else ("" if var == "empty" else var[1])
     if isinstance(e, ast.Constant):
         return e.value
+    if isinstance(e, (ast.Tuple, ast.List, ast.Set)) and all(isinstance(x, ast.Constant) for x in e.elts):
+        return tuple(x.value for x in e.elts)
     if isinstance(e, ast.Name):
         if e.id == "__debug__":
             return debug
+        if scope is not None and e.id in scope:
+            return scope[e.id]
+        if e.id in ("None", "True", "False"):
+            return {"None": None, "True": True, "False": False}[e.id]
+        if mod is not None and len(mod.assigns.get(e.id, [])) == 1 and e.id != "SLOW":
+            return _eval_env(mod.assigns[e.id][0], debug, var, None, mod, depth + 1)
         raise AnalysisError("SLOW depends on the name %s" % e.id)
+    if isinstance(e, ast.Call) and isinstance(e.func, ast.Name) and mod is not None and depth < 3:
+        helpers = [f_ for f_ in mod.tree.body if isinstance(f_, ast.FunctionDef) and f_.name == e.func.id]
+        if len(helpers) == 1 and not helpers[0].decorator_list:
+            fn = helpers[0]
+            a = fn.args
+            if a.vararg or a.kwarg or a.kwonlyargs or a.posonlyargs or len(e.args) + len(e.keywords) > len(a.args):
+                raise AnalysisError("SLOW helper %s: unsupported signature" % fn.name)
+            names = [x.arg for x in a.args]
+            local = dict(zip(names, [ev(x) for x in e.args]))
+            for kw in e.keywords:
+                local[kw.arg] = ev(kw.value)
+            for nm, dflt in zip(names[len(names) - len(a.defaults):], a.defaults):
+                local.setdefault(nm, _eval_env(dflt, debug, var, None, mod, depth + 1))
+            if set(local) != set(names):
+                raise AnalysisError("SLOW helper %s: arguments do not bind" % fn.name)
+            try:
+                _exec_block(fn.body, debug, var, local, mod, depth + 1)
+            except _Return as r:
+                return r.value
+            return None
     if isinstance(e, ast.BoolOp):
         res = None
         for v in e.values:
-            res = _eval_env(v, debug, var)
+            res = ev(v)
             if isinstance(e.op, ast.And) and not res:
                 return res
             if isinstance(e.op, ast.Or) and res:
                 return res
         return res
     if isinstance(e, ast.UnaryOp) and isinstance(e.op, ast.Not):
-        return not _eval_env(e.operand, debug, var)
+        return not ev(e.operand)
     if isinstance(e, ast.Compare) and len(e.ops) == 1:
         op = e.ops[0]
         if isinstance(op, (ast.In, ast.NotIn)) and isinstance(e.comparators[0], (ast.Tuple, ast.List, ast.Set)) and all(isinstance(x, ast.Constant) for x in e.comparators[0].elts):
-            l = _eval_env(e.left, debug, var)
+            l = ev(e.left)
             r = l in [x.value for x in e.comparators[0].elts]
             return r if isinstance(op, ast.In) else not r
         if isinstance(op, (ast.In, ast.NotIn)) and src_of(e.comparators[0]) == "os.environ" and isinstance(e.left, ast.Constant):
@@ -122,7 +180,10 @@ def _eval_env(e, debug, var):
                 raise AnalysisError("SLOW reads the environment variable %r" % e.left.value)
             r = val is not None
             return r if isinstance(op, ast.In) else not r
-        l, r = _eval_env(e.left, debug, var), _eval_env(e.comparators[0], debug, var)
+        l, r = ev(e.left), ev(e.comparators[0])
+        if isinstance(op, (ast.In, ast.NotIn)) and isinstance(r, (tuple, str)):
+            res_ = l in r
+            return res_ if isinstance(op, ast.In) else not res_
         if isinstance(op, ast.Eq):
             return l == r
         if isinstance(op, ast.NotEq):
@@ -137,7 +198,7 @@ def _eval_env(e, debug, var):
             return l >= r
         raise AnalysisError("SLOW uses comparison %s" % src_of(e))
     if isinstance(e, ast.Call) and isinstance(e.func, ast.Attribute) and e.func.attr in ("strip", "lower", "upper", "lstrip", "rstrip", "casefold") and not e.args and not e.keywords:
-        base = _eval_env(e.func.value, debug, var)
+        base = ev(e.func.value)
         if not isinstance(base, str):
             raise AnalysisError("SLOW applies .%s() to a non-string" % e.func.attr)
         return getattr(base, e.func.attr)()
@@ -145,24 +206,24 @@ def _eval_env(e, debug, var):
         f = src_of(e.func)
         if f in ("os.environ.get", "os.getenv"):
             name = e.args[0]
-            if not (isinstance(name, ast.Constant) and name.value == "ICONTRACT_SLOW"):
+            if ev(name) != "ICONTRACT_SLOW":
                 raise AnalysisError("SLOW reads the environment variable %s" % src_of(name))
-            default = _eval_env(e.args[1], debug, var) if len(e.args) > 1 else None
+            default = ev(e.args[1]) if len(e.args) > 1 else None
             for kw in e.keywords:
                 if kw.arg == "default":
-                    default = _eval_env(kw.value, debug, var)
+                    default = ev(kw.value)
             return default if val is None else val
         if f == "bool" and len(e.args) == 1:
-            return bool(_eval_env(e.args[0], debug, var))
+            return bool(ev(e.args[0]))
         if f == "len" and len(e.args) == 1:
-            return len(_eval_env(e.args[0], debug, var))
+            return len(ev(e.args[0]))
         raise AnalysisError("SLOW calls %s" % f)
     if isinstance(e, ast.Subscript) and src_of(e.value) == "os.environ":
         if val is None:
             raise AnalysisError("SLOW indexes os.environ directly (KeyError when unset)")
         return val
     if isinstance(e, ast.IfExp):
-        return _eval_env(e.body, debug, var) if _eval_env(e.test, debug, var) else _eval_env(e.orelse, debug, var)
+        return ev(e.body) if ev(e.test) else ev(e.orelse)
     raise AnalysisError("SLOW uses an unrecognised expression: %s" % src_of(e))
 
 
@@ -182,7 +243,7 @@ def slow(run, model, rule="C15.slow"):
                     nonempty.append(v)
     for debug in (True, False):
         for var in ["unset", "empty"] + [("value", v) for v in nonempty]:
-            got = bool(_eval_env(e, debug, var))
+            got = bool(_eval_env(e, debug, var, None, mod))
             want = debug and var not in ("unset", "empty")
             label = var if isinstance(var, str) else "= %r" % var[1]
             run.check(got == want, rule, "_globals.SLOW[__debug__=%s, ICONTRACT_SLOW %s]" % (debug, label), "SLOW is %s" % want, "SLOW is %s in this configuration, expected %s (any non-empty value switches the slow contracts on in a non-optimised interpreter, nothing else does)" % (got, want), "icontract/_globals.py:%d" % e.lineno, None, "SLOW = " + src_of(e))
